@@ -1,6 +1,7 @@
 """C15 - module constants are exported with the WGSL type and exact value."""
 from common import coq_options
 import sink
+import obs
 
 ID = "C15"
 REQUIRES = ["Agree", "C15Spec", "Truth"]
@@ -25,11 +26,34 @@ def cases(rng, tier):
     return out
 
 
+def run_cases(plain, cases_, workdir, tag):
+    return obs.attach(plain, cases_, workdir, tag, lambda c: True, 40 if "search" not in tag else 0)
+
+
 def verdict_expr(c, r, ir, real):
+    ob = "true"
+    if "obs" in r and r.get("result") == "ok":
+        ok, why = obs.check_c15(c["truth"], r) if obs.usable(r) else (False, "module did not build / run on the shim: %s" % str(r.get("obs"))[:300])
+        c["note"] = why
+        ob = "true" if ok else "false"
+    return _verdict(c, r, ir, real).replace("OBS", ob)
+
+
+def _verdict(c, r, ir, real):
     t = sink.coq_consts_truth(c["truth"])
     return ('[wf_consts %s; agree_res agree_C15 (gen %s ""%%string None %s) %s; '
-            'on_ok %s (fun o => C15_ok %s o && truth_consts_ok o %s)]'
+            'on_ok %s (fun o => C15_ok %s o && truth_consts_ok o %s) && OBS]'
             % (ir, ir, coq_options(c["opts"]), real, real, ir, t))
+
+
+def verdict_expr_noout(c, r, ir):
+    # the returned text does not match the templates any more: decide (b) by what the compiled module does
+    ob = "true"
+    if "obs" in r and r.get("result") == "ok":
+        ok, why = obs.check_c15(c["truth"], r) if obs.usable(r) else (False, "module did not build / run on the shim: %s" % str(r.get("obs"))[:300])
+        c["note"] = "extraction failed (%s); behaviour: %s" % (r.get("extract_err"), why)
+        ob = "true" if ok else "false"
+    return "[true; false; %s]" % ob
 
 
 def nontrivial(c, r):
